@@ -12,7 +12,7 @@ from harness import htaio
 from harness.props import common as C
 from harness.props import cpcommon as CP
 
-N_CASES = {"quick": 80, "thorough": 1200}
+N_CASES = {"quick": 130, "thorough": 1200}
 SHRINK = True
 ASSUMPTIONS = [
     "graphs come from successful analyses of causally consistent well-formed traces",
